@@ -173,6 +173,26 @@ CLAIMED.update({
     },
 })
 
+CLAIMED.update({
+    "C18": {
+        "technique": "static analysis: def-use fate of Result values at every resource-request call site; type-resolved who-may-call / who-may-hold census",
+        "level": ("Static, every call site (134 today) of a memory or spill request in the execution crates: the Result is never "
+                  "unwrap/expect-ed, and is discarded only at 16 frozen, individually justified sites (failure selects the spill path, "
+                  "best-effort resize while draining, destructor); no mem::forget / ManuallyDrop / leak / into_raw in those crates; every "
+                  "struct storing a spill file stores the ref-counted handle. Necessary for 'fail cleanly with a resources error and "
+                  "release everything'; equality of results under a limit and absence of hangs are not decided."),
+    },
+    "C20": {
+        "technique": "static analysis: def-use fate + path-sensitive Err-arm exploration of every stream item / task-join result over the execution crates",
+        "level": ("Static, every call site (about 630 today) in physical-plan, datasource*, execution, common-runtime and core that yields a "
+                  "stream item or task result with an engine error type: the Err payload reaches a sink (`?`, return value, channel / "
+                  "collection / field, another function, or a whole-value forward); on every explored path where the item is Err the "
+                  "error is not replaced by something else (e.g. Poll::Ready(None)). Four sites are frozen with reasons (opt-in "
+                  "OnError::Skip, optional bloom filters, cache pre-warm). Necessary for 'no truncated result counts as success'; "
+                  "bounded time and hangs are not decided."),
+    },
+})
+
 NA = {
     'C01': 'whole-pipeline value semantics over all queries x all table contents: functional verification, no clause visible in code shape beyond C03/C05/C47',
     'C08': 'ordering/permutation of runtime values (loser tree, cursors, heaps are value algorithms); no structural clause',
